@@ -3,14 +3,26 @@
 //! against `sha2` only), clustered-key generators and canonical printing.
 use crate::{ctx::Rng, util::hex};
 use fuel_merkle::{
-    sparse::{in_memory::NodesTable, MerkleTreeKey, Primitive},
-    storage::{StorageInspect, StorageMutate},
+    sparse::{MerkleTreeKey, Primitive},
+    storage::{Mappable, StorageInspect, StorageMutate},
 };
 use sha2::{Digest, Sha256};
 use std::{borrow::Cow, collections::BTreeMap};
 
 pub type B32 = [u8; 32];
 pub const ZERO: B32 = [0u8; 32];
+
+/// The node table (same shape as `in_memory::NodesTable`, but `Clone` so that `StorageMap<Tbl>` can be cloned
+/// to simulate a restart from persisted nodes).
+#[derive(Clone, Debug, Default)]
+pub struct Tbl;
+impl Mappable for Tbl {
+    type Key = Self::OwnedKey;
+    type OwnedKey = B32;
+    type OwnedValue = Primitive;
+    type Value = Self::OwnedValue;
+}
+pub type NodesTable = Tbl;
 
 /// Node storage whose content can be listed (the crate's `StorageMap` cannot be iterated).
 #[derive(Clone, Default, Debug)]
